@@ -412,6 +412,98 @@ func routeKind(r string) string {
 	return "pull"
 }
 
+// c01DropOldest: the acknowledgement of a publish under drop_oldest at a full
+// queue. One sequential client, so between an acknowledgement and the SIGKILL
+// that follows it no other enqueue can have evicted anything: every item of a
+// batch answered 200 must be listed after the restart, a batch answered 503
+// must have left nothing. Situations: item older than everything queued,
+// every active message leased, batch larger than the room eviction can make.
+func c01DropOldest(c *vlib.Ctx, root string) {
+	const depth = 6
+	cfg := c01Config + fmt.Sprintf("queue_limits { max_depth %d\n drop_policy drop_oldest }\n", depth)
+	type sit struct {
+		name    string
+		leased  int // messages leased before the publish
+		items   int
+		oldItem bool
+	}
+	sits := []sit{{"item_older_than_queue", 0, 1, true}, {"all_active_leased", depth, 1, false}, {"all_active_leased_batch", depth, 3, false}, {"batch_larger_than_room", depth - 2, 4, false},
+		{"batch_larger_than_depth", 0, depth + 3, false}, {"plain_full_queue", 0, 2, false}, {"old_item_all_leased", depth, 2, true}}
+	parallel(len(sits), 4, func(i int) {
+		k := sits[i]
+		dir := filepath.Join(root, "dropoldest-"+k.name)
+		defer os.RemoveAll(dir)
+		p, err := l3.New(dir, cfg)
+		if err != nil {
+			c.Inconclusive("C01 drop_oldest: " + err.Error())
+			return
+		}
+		env := []string{"VERIF_SQLITE_CHECKPOINT_INTERVAL=40ms"}
+		if err := p.StartHealthy(l3.StartOpts{Env: env}, 60*time.Second); err != nil {
+			c.Inconclusive("C01 drop_oldest: start: " + err.Error())
+			p.Kill()
+			return
+		}
+		for n := 0; n < depth; n++ {
+			p.Ingress("/p1", []byte(fmt.Sprintf("mk:fill%d:", n)), nil)
+		}
+		if k.leased > 0 {
+			p.Pull("/pull/p1/dequeue", map[string]any{"batch": k.leased, "lease_ttl": "10m"}, "tok")
+		}
+		var items []map[string]any
+		var ids []string
+		for n := 0; n < k.items; n++ {
+			id := fmt.Sprintf("do-%s-%d", k.name, n)
+			it := map[string]any{"id": id, "route": "/p1", "payload_b64": base64.StdEncoding.EncodeToString([]byte("mk:" + id + ":"))}
+			if k.oldItem {
+				it["received_at"] = time.Now().Add(-48 * time.Hour).UTC().Format(time.RFC3339Nano)
+			}
+			items = append(items, it)
+			ids = append(ids, id)
+		}
+		resp := p.Admin("POST", "/messages/publish", map[string]any{"items": items})
+		p.Kill()
+		if resp.Err != nil && resp.Status == 0 {
+			c.Inconclusive("C01 drop_oldest: publish got no answer: " + resp.Err.Error())
+			return
+		}
+		if err := p.StartHealthy(l3.StartOpts{Env: env}, 60*time.Second); err != nil {
+			if p.Exited() {
+				c.Violation(vlib.Signature{"class": "restart_failed", "crash": "external"}, fmt.Sprintf("[drop_oldest %s] the process does not come up after the kill: %v", k.name, err), nil)
+			}
+			p.Kill()
+			return
+		}
+		msgs, lerr := p.ListAll()
+		p.Stop()
+		if !p.Exited() {
+			p.Kill()
+		}
+		if lerr != nil {
+			c.Inconclusive("C01 drop_oldest: listing: " + lerr.Error())
+			return
+		}
+		have := map[string]int{}
+		for _, m := range msgs {
+			have[m.ID]++
+		}
+		c.Count("evaluations", 1)
+		c.Count("drop_oldest_publish_trials", 1)
+		c.Distinct("nontrivial", fmt.Sprintf("drop_oldest:%s:status=%d", k.name, resp.Status))
+		wit := map[string]any{"situation": k.name, "status": resp.Status, "response": string(resp.Body), "listed_after_restart": len(msgs)}
+		for _, id := range ids {
+			switch {
+			case resp.Status == 200 && have[id] != 1:
+				c.Violation(vlib.Signature{"class": "acked_message_lost", "route": "publish", "crash": "external", "situation": "drop_oldest"},
+					fmt.Sprintf("[drop_oldest %s] publish answered 200 for %s but it is listed %d times after kill and restart (no other enqueue happened in between)", k.name, id, have[id]), wit)
+			case resp.Status != 200 && have[id] != 0:
+				c.Violation(vlib.Signature{"class": "refused_publish_stored", "crash": "external", "situation": "drop_oldest"},
+					fmt.Sprintf("[drop_oldest %s] publish answered %d but %s is in the queue after restart", k.name, resp.Status, id), wit)
+			}
+		}
+	})
+}
+
 // c01StartupCrashes enumerates the crash points of a first start completely:
 // on a fresh database the process is killed at the h-th occurrence of each
 // store-level point for h = 1, 2, ... until a start gets healthy without the
@@ -745,6 +837,7 @@ func C01(c *vlib.Ctx) {
 	}
 	parallel(len(jobs), 8, func(k int) { c01Trial(c, root, jobs[k].idx, jobs[k].crashes) })
 	c01StartupCrashes(c, root)
+	c01DropOldest(c, root)
 	c.Set("duplicate_settle_races", c01DupSettles.Load())
 	c01Strace(c, root)
 	if c.Counter("restart_audits") == 0 {
